@@ -230,8 +230,26 @@ def ev_raise_family(ctx):
     return out
 
 
+def ev_args_family(ctx):
+    """eventually(cb, *args, **kwargs) with argument names that collide with names used inside the queue"""
+    from harness import c17_impl as impl
+    excl = set(impl.entry_point_params(impl.ev.eventually))
+    names = [n for n in impl.colliding_names() if n not in excl]
+    out = []
+    for i, nme in enumerate(names):
+        ids = Ids()
+        kw = {nme: 7, names[(i + 3) % len(names)]: 8}
+        out.append([["act", ["enq", [ids(), [], 0], [[], {nme: 1}]]],
+                    ["act", ["enq", [ids(), [["enq", [ids(), [], 0], [[5], kw]]], 1 if i % 2 else 0], [[1, 2], kw]]],
+                    ["act", ["enq", [ids(), [], 2 if i % 3 == 0 else 0], [[9], {}]]],
+                    ["turn"], ["turn"]])
+    ids = Ids()
+    out.append([["act", ["enq", [ids(), [], 0], [[1, 2, 3], {n: k for k, n in enumerate(names)}]]], ["turn"]])
+    return out
+
+
 def ev_programs(ctx):
-    out = ev_raise_family(ctx)
+    out = ev_raise_family(ctx) + ev_args_family(ctx)
     maxlen = ctx.n(4, 5)
     letters = EV_LETTERS if ctx.tier == "thorough" else "NRBQFTLK"
     for n in range(1, maxlen + 1):
@@ -256,6 +274,7 @@ def ev_programs(ctx):
     return out
 
 
+ARG_NAMES = ["f", "callable", "func", "self", "args", "kwargs", "methname", "resolver", "_", "name", "method", "d", "t"]
 PR_LETTERS = "SsOWXEVBCvbTRZzY"
 
 
@@ -331,11 +350,15 @@ def pr_random(rng):
             mid += 1
             b = rng.choice([["ret", mid + 40], ["ret", mid + 40], ["raise", mid + 60], ["retp", rng.randrange(n + 1)],
                             ["sendret", rng.randrange(n), 1000 + mid, mid + 40]])
+            extra = []
+            if rng.random() < 0.3:
+                extra = [[[rng.randrange(9) for _ in range(rng.randrange(3))],
+                          {rng.choice(ARG_NAMES): rng.randrange(9) for _ in range(rng.randrange(3))}]]
             if rng.random() < 0.75:
-                prog.append(["send", p, mid, b])
+                prog.append(["send", p, mid, b] + extra)
                 n += 1
             else:
-                prog.append(["sendonly", p, mid, b])
+                prog.append(["sendonly", p, mid, b] + extra)
         elif k < 0.65:
             w += 1
             prog.append(["when", p, w, rng.choice(["when", "when", "then", "except"])])
@@ -396,8 +419,46 @@ def pr_chain_family(ctx):
     return out
 
 
+def pr_args_family(ctx):
+    """messages (and _then/_except observers) whose extra arguments -- positional and keyword -- use names that collide
+    with parameters / locals of the functions on the delivery path; sent before and after the resolution, with send and
+    sendOnly, to plain, chained and broken promises.  The target must receive exactly what was sent."""
+    from harness import c17_impl as impl
+    names = impl.colliding_names()
+    # _then/_except(cb, *args, **kwargs) are documented as when(p).addCallback/addErrback(cb, *a, **kw): a keyword that
+    # is a named parameter of those entry points themselves cannot be passed in Python (TypeError at the call)
+    from twisted.internet import defer
+    obs_excl = set(impl.entry_point_params(impl.pm.Promise._then)) | set(impl.entry_point_params(impl.pm.Promise._except)) \
+        | set(impl.entry_point_params(defer.Deferred.addCallback)) | set(impl.entry_point_params(defer.Deferred.addErrback))
+    out = []
+
+    def prog(kws, pos, chain, final):
+        p = [["new"], ["new"]]
+        mid = [0]
+
+        def snd(kind, tgt):
+            mid[0] += 1
+            return [kind, tgt, mid[0], ["ret", 40 + mid[0]], [list(pos), dict(kws)]]
+        okw = {k: v for k, v in kws.items() if k not in obs_excl}
+        p += [snd("send", 0), snd("sendonly", 0), ["when", 0, 101, "then", [list(pos), okw]],
+              ["when", 0, 102, "except", [list(pos), okw]]]
+        if chain:
+            p += [["resolve", 0, ["prom", 1]], snd("sendonly", 0), ["resolve", 1, final]]
+        else:
+            p += [["resolve", 0, final]]
+        p += [snd("send", 0), snd("sendonly", 0), ["when", 0, 103, "then", [list(pos), okw]], ["turn"], snd("sendonly", 0),
+              snd("send", 2), ["turn"], ["turn"], ["turn"]]
+        return p
+    for i, nme in enumerate(names):
+        out.append(prog({nme: 7}, [], i % 2 == 1, ["val", 5]))
+        out.append(prog({nme: 7, names[(i + 1) % len(names)]: 8}, [3, 4], i % 2 == 0, ["val", 5] if i % 3 else ["fail", 6]))
+    out.append(prog({n: k for k, n in enumerate(names)}, [1, 2, 3], True, ["val", 5]))
+    out.append(prog({}, [1, 2, 3, 4, 5], False, ["val", 5]))
+    return out
+
+
 def pr_programs(ctx):
-    out = pr_chain_family(ctx)
+    out = pr_chain_family(ctx) + pr_args_family(ctx)
     maxlen = ctx.n(3, 4)
     for n in range(1, maxlen + 1):
         for wd in itertools.product(PR_LETTERS, repeat=n):
